@@ -116,7 +116,12 @@ func (fr *Frame) callFunc(v ssa.Value, f *ssa.Function, args []Val, bind []Val, 
 			ts = append(ts, t)
 		}
 		ex.Used[key] = true
-		fr.setRes(v, ex.abstractApp(key, ts))
+		res := ex.abstractApp(key, ts)
+		if len(con.Ensures) > 0 || len(con.Requires) > 0 || con.PanicsIf != nil {
+			fr.applyContractRes(v, f, con, args, in, res)
+			return
+		}
+		fr.setRes(v, res)
 		return
 	}
 	if con != nil && !con.Inline && (con.Trusted || len(con.Ensures) > 0 || len(con.Requires) > 0 || con.PanicsIf != nil || len(con.Modifies) > 0) {
@@ -207,6 +212,10 @@ func (fr *Frame) calleeEnv(f *ssa.Function, con *Contract, args []Val) *SpecEnv 
 }
 
 func (fr *Frame) applyContract(v ssa.Value, f *ssa.Function, con *Contract, args []Val, in ssa.Instruction) {
+	fr.applyContractRes(v, f, con, args, in, nil)
+}
+
+func (fr *Frame) applyContractRes(v ssa.Value, f *ssa.Function, con *Contract, args []Val, in ssa.Instruction, given Val) {
 	ex := fr.ex
 	ex.Used[con.Key] = true
 	if con.Trusted {
@@ -237,7 +246,10 @@ func (fr *Frame) applyContract(v ssa.Value, f *ssa.Function, con *Contract, args
 		fr.havocTarget(f, m, args, in)
 	}
 	// results
-	res := fr.freshResults(f.Signature.Results(), "r:"+shortFuncName(f))
+	res := given
+	if res == nil {
+		res = fr.freshResults(f.Signature.Results(), "r:"+shortFuncName(f))
+	}
 	if sp := ex.split; sp.on && fr.top && fmt.Sprintf("%s#%d", fr.siteKey(in), fr.ord[in]) == sp.sp.Site {
 		if tv, ok := res.(TV); ok && tv.T.Sort == SInt {
 			if sp.rest {
@@ -252,6 +264,25 @@ func (fr *Frame) applyContract(v ssa.Value, f *ssa.Function, con *Contract, args
 		post.vars[k] = val
 	}
 	bindResults(post.vars, f, res)
+	// ghost (universally quantified) variables of the callee's contract
+	var ghostVars []*Term
+	for _, g := range con.Ghosts {
+		gt, err := ex.P.resolveTypeExpr(con.PkgPath, g.Type)
+		if err != nil {
+			ex.oos("ghost %s: %v", g.Name, err)
+			continue
+		}
+		ex.ghostCtr++
+		var gs *Term
+		if gt == nil {
+			gs = Sym(fmt.Sprintf("$g!%s!%d", g.Name, ex.ghostCtr), SInt)
+			post.vars[g.Name] = mathInt(gs)
+		} else {
+			gs = Sym(fmt.Sprintf("$g!%s!%d", g.Name, ex.ghostCtr), SortOf(gt))
+			post.vars[g.Name] = TV{gs, gt}
+		}
+		ghostVars = append(ghostVars, gs)
+	}
 	for _, l := range con.Lets {
 		func() {
 			defer func() {
@@ -272,9 +303,21 @@ func (fr *Frame) applyContract(v ssa.Value, f *ssa.Function, con *Contract, args
 			ex.oos("%s: cannot evaluate postcondition of %s: %v", shortName(fr.fn.String()), shortName(con.Key), err)
 			continue
 		}
+		if len(ghostVars) > 0 && dependsOnAny(t, ghostVars) {
+			t = Forall(ghostVars, t)
+		}
 		ex.assume(fr.cur, t)
 	}
 	fr.setRes(v, res)
+}
+
+func dependsOnAny(t *Term, vs []*Term) bool {
+	for _, v := range vs {
+		if dependsOn(t, v) {
+			return true
+		}
+	}
+	return false
 }
 
 func bindResults(vars map[string]Val, f *ssa.Function, res Val) {
